@@ -329,6 +329,16 @@ pub mod token {
         //@ ensures wire: r is Ok ==> schema::wire_decode(slice@) is Some && wire_rel(schema::wire_decode(slice@)->Some_0, r->Ok_0.container, true)
         //@ ensures root_key_id: r is Ok ==> r->Ok_0.root_key_id == r->Ok_0.container.root_key_id
         //@end
+        //@extract biscuit-auth/src/token/mod.rs :: impl Biscuit :: fn from
+        //@ sub slice\.as_ref\(\) => crate::verif_std::verif_as_ref(&slice)
+        //@ ensures chain: r is Ok ==> key_provider.choose_spec(r->Ok_0.container.root_key_id) is Ok && chain_valid(r->Ok_0.container, key_provider.choose_spec(r->Ok_0.container.root_key_id)->Ok_0, false)
+        //@ ensures inv: r is Ok ==> r->Ok_0.inv()
+        //@end
+        //@extract biscuit-auth/src/token/mod.rs :: impl Biscuit :: fn unsafe_deprecated_deserialize
+        //@ sub slice\.as_ref\(\) => crate::verif_std::verif_as_ref(&slice)
+        //@ ensures chain: r is Ok ==> key_provider.choose_spec(r->Ok_0.container.root_key_id) is Ok && chain_valid(r->Ok_0.container, key_provider.choose_spec(r->Ok_0.container.root_key_id)->Ok_0, true)
+        //@ ensures inv: r is Ok ==> r->Ok_0.inv()
+        //@end
         //@extract biscuit-auth/src/token/mod.rs :: impl Biscuit :: fn from_serialized_container
         //@ requires empty: symbols.strings_view().len() == 0 && symbols.public_keys.keys@.len() == 0
         //@ ensures inv: r is Ok ==> r->Ok_0.inv()
@@ -416,6 +426,10 @@ pub mod token {
                                           self.symbols.strings_view(), self.symbols.public_keys.keys@)
             }
 
+            //@extract biscuit-auth/src/token/unverified.rs :: impl UnverifiedBiscuit :: fn from
+            //@ sub slice\.as_ref\(\) => crate::verif_std::verif_as_ref(&slice)
+            //@ ensures inv: r is Ok ==> r->Ok_0.inv()
+            //@end
             //@extract biscuit-auth/src/token/unverified.rs :: impl UnverifiedBiscuit :: fn unsafe_deprecated_deserialize
             //@ ensures inv: r is Ok ==> r->Ok_0.inv()
             //@ sub slice\.as_ref\(\) => crate::verif_std::verif_as_ref(&slice)
@@ -715,3 +729,4 @@ pub mod tspec {
 //@canary unverified-append-third-party-key :: token::unverified::UnverifiedBiscuit::append_third_party :: self.append_third_party_with_keypair(slice, next_keypair) ==>> self.append_third_party_with_keypair(slice, KeyPair::new_with_rng(super::builder::Algorithm::Secp256r1, &mut rand::rngs::OsRng))
 //@canary authority-next-key-is-root :: token::Biscuit::new_with_rng :: &KeyPair::new_with_rng(builder::Algorithm::Ed25519, rng), ==>> root,
 //@canary builder-keys-swapped :: token::builder::biscuit::BiscuitBuilder::build_with_key_pair :: Biscuit::new_with_key_pair(self.root_key_id, root, next, symbols, authority_block) ==>> Biscuit::new_with_key_pair(self.root_key_id, next, root, symbols, authority_block)
+//@canary from-uses-legacy-mode :: token::Biscuit::from :: Biscuit::from_with_symbols(slice.as_ref(), key_provider, default_symbol_table()) ==>> { let container = SerializedBiscuit::unsafe_from_slice(slice.as_ref(), key_provider).map_err(error::Token::Format)?; Biscuit::from_serialized_container(container, default_symbol_table()) }
